@@ -27,10 +27,18 @@ for k in kf:
 metas = sorted(glob.glob(os.path.join(ROOT, "seeded", "*", "meta.json")))
 if metas:
     out.append("\n### 10.6 Seeded changes (independent sub-agents) and the checks that catch them\n")
-    out.append("| seeded change | breaks | what it changes | needs to manifest | caught by (quick tier unless noted) |\n|---|---|---|---|---|")
+    out.append("Each change was produced by a sub-agent that saw only the text of one property and a scratch worktree; each was "
+               "confirmed by us (scripts/mutconfirm.sh: applies, demonstration fails with it and passes without it, the unedited "
+               "suite passes) and run through the checks with scripts/mutrun.sh / scripts/mutmatrix.py on a scratch copy. "
+               "'silent' lists the checks that were run against the change and did not fire (they guard other properties). "
+               "The note says where a check had to be strengthened because the change was missed at first.\n")
+    out.append("| seeded change | breaks | what it changes | needs to manifest | caught by (quick tier) | run, silent | note |\n|---|---|---|---|---|---|---|")
+    def cut(x, n=280):
+        x = str(x).replace("|", "/").replace("\n", " ")
+        return x if len(x) <= n else x[:n] + "…"
     for m in metas:
         d = json.load(open(m))
-        out.append(f"| {os.path.basename(os.path.dirname(m))} | {d.get('property','')} | {str(d.get('summary','')).replace('|','/')} | {str(d.get('needs_to_manifest','')).replace('|','/')} | {str(d.get('caught_by','')).replace('|','/')} |")
+        out.append(f"| {os.path.basename(os.path.dirname(m))} | {d.get('property','')} | {cut(d.get('summary',''))} | {cut(d.get('needs_to_manifest',''))} | {' '.join(d.get('caught_by',[]))} | {' '.join(d.get('silent',[]))} | {cut(d.get('note',''), 400)} |")
 text = "\n".join(out) + "\n"
 p = os.path.join(ROOT, "DESIGN.md")
 s = open(p).read()
